@@ -328,6 +328,8 @@ impl Worker {
         }
         // watchdog: the read happens on this thread; a helper thread kills the child on timeout
         let pid = self.child.id();
+        // 20 s by default; a case may ask for more (scripts that grow until they hit the live-heap cap)
+        let limit_s = case["watchdog_s"].as_u64().unwrap_or(20).clamp(1, 300);
         let done = std::sync::Arc::new(AtomicBool::new(false));
         let done2 = done.clone();
         let timed_out = std::sync::Arc::new(AtomicBool::new(false));
@@ -335,7 +337,7 @@ impl Worker {
         let watchdog = std::thread::spawn(move || {
             let start = std::time::Instant::now();
             while !done2.load(Ordering::Relaxed) {
-                if start.elapsed().as_secs() >= 20 {
+                if start.elapsed().as_secs() >= limit_s {
                     t2.store(true, Ordering::Relaxed);
                     unsafe {
                         libc::kill(pid as i32, libc::SIGKILL);
